@@ -3,7 +3,7 @@ import json, os, time, copy, re
 import vlib
 from vlib import tlc, tlc_parallel, Verdicts, write_evidence
 
-FAMILIES = {"C01": ["layout", "kinds", "py", "tails"], "C02": ["layout", "kinds", "py", "read", "tails"], "C03": ["layout"], "C17": ["read", "layout", "py"], "C18": ["kinds", "py"], "C19": ["order", "kinds", "py"]}
+FAMILIES = {"C01": ["layout", "kinds", "py", "tails"], "C02": ["layout", "kinds", "py", "read", "tails"], "C03": ["layout", "py"], "C17": ["read", "layout", "py"], "C18": ["kinds", "py"], "C19": ["order", "kinds", "py"]}
 MODELS = {"C01": ["MC_NumVM"], "C02": ["MC_NumVM"], "C03": ["MC_Layout"], "C17": ["MC_Layout"], "C18": ["MC_Layout"], "C19": ["MC_NumVM"]}
 RANDOM = {"C01": ("D1",), "C02": ("D2",), "C03": (), "C17": ("D2",), "C18": (), "C19": ("D1", "D2")}
 
